@@ -3,12 +3,16 @@ From Bfe Require Import lib.Val lib.Bytes model.Access.
 Import ListNotations.
 Open Scope Z_scope.
 
-(* op 1 basic : [1; VB Authorization; VZ decoded_ok; VB decoded; VL [[VB user; VZ password_matches_hash] ...]]   => [accepted; status]
-   op 2 jwt   : [2; VB Authorization; VZ malformed; VZ alg; VL [[present value] x3] (exp iat nbf); VZ now;
-                 VL [[kty declared_alg signature_verifies] ...]; key-set id (opaque)]                                            => [accepted; status]
-   op 3 link  : [3; VZ has_expires_key; VB expires; VB checksum; VB md5 digest; VZ now]                        => error code 0..5
-   op 4 block : [4; VZ ip_in_global_table; VZ has_global_rules; VL [[match cmd] ...]; VZ has_product_rules; VL [[match cmd] ...]]
-                                                                                                               => [conn_refused; req_closed] *)
+(* route (ops 1, 2): see `op` below.
+   op 1 basic : [1; VB Authorization; VZ decoded_ok; VB decoded; VL [[VB user; VZ password_matches_hash; VB hash] ...]; VZ route]
+                                                                                      => [accepted; status]
+   op 2 jwt   : [2; VB Authorization; VZ malformed; VZ alg; VL [[kind value] x3] (exp iat nbf); VZ now;
+                 VL [[kty declared_alg signature_verifies] ...]; VZ route; key-set id (opaque)]   => [accepted; status]
+   op 3 link  : [3; VZ has_expires_key; VB expires; VB checksum; VB md5 digest; VZ now; label; host; query value v;
+                 mode (opaque; 1 = expires and now are relative to the wall clock at the time of the call)]
+                                                                                      => error code 0..5
+   op 4 block : [4; VZ ip_in_global_table; VZ has_global_rules; VL [[match cmd] ...]; VZ has_product_rules;
+                 VL [[match cmd] ...]; blocklist; client (opaque)]                    => [conn_refused; req_closed] *)
 Definition b (z : Z) : bool := negb (z =? 0).
 Definition dec_opt (v : val) : option claim :=      (* [kind value]: kind 0 absent, 1 number, other = non-numeric JSON *)
   match v with VL [VZ p; VZ x] => Some (if p =? 0 then CAbsent else if p =? 1 then CNum x else CBad) | _ => None end.
@@ -33,27 +37,43 @@ Definition dec_rules (has : Z) (v : val) : option (option (list (bool * Z))) :=
 
 Definition verdict (ok : bool) : val := VL [vbool ok; VZ (if ok then 0 else 401)].
 
-Definition run_C51 (i : val) : val :=
+(* typed operations; route: 0 = the request's product has rules [one whose condition is false; the rule under test],
+   1 = the product has no rules, 2 = no rule's condition matches (1, 2: the request is not covered, it goes on) *)
+Inductive op :=
+| OBasic (auth : bytes) (decoded : option bytes) (users : list (bytes * bool)) (route : Z)
+| OJwt (auth : bytes) (mal : bool) (alg : Z) (c : claims) (now : Z) (keys : list jkey) (route : Z)
+| OLink (he : bool) (expires checksum digest : bytes) (now : Z)
+| OBlock (inT : bool) (g p : option (list (bool * Z))).
+Definition dec_C51 (i : val) : option op :=
   match i with
-  | VL [VZ 1; VB auth; VZ dok; VB dec; us] =>
+  | VL [VZ 1; VB auth; VZ dok; VB dec; us; VZ route] =>
     match dec_users us with
-    | Some users => verdict (basic_accept auth (if b dok then Some dec else None) users)
-    | None => VErr 0
+    | Some users => Some (OBasic auth (if b dok then Some dec else None) users route)
+    | None => None
     end
-  | VL [VZ 2; VB auth; VZ mal; VZ alg; cl; VZ now; ks; _] =>
+  | VL [VZ 2; VB auth; VZ mal; VZ alg; cl; VZ now; ks; VZ route; _] =>
     match dec_claims cl, dec_keys ks with
-    | Some c, Some keys => verdict (jwt_accept auth (b mal) alg c now keys)
-    | _, _ => VErr 0
+    | Some c, Some keys => Some (OJwt auth (b mal) alg c now keys route)
+    | _, _ => None
     end
-  | VL [VZ 3; VZ he; VB expires; VB checksum; VB digest; VZ now; _; _; _] =>
-    VZ (secure_link (b he) expires checksum digest now)
+  | VL [VZ 3; VZ he; VB expires; VB checksum; VB digest; VZ now; _; _; _; _] =>
+    Some (OLink (b he) expires checksum digest now)
   | VL [VZ 4; VZ inT; VZ hg; g; VZ hp; p; _; _] =>
     match dec_rules hg g, dec_rules hp p with
-    | Some g', Some p' => VL [vbool (global_block (b inT)); vbool (product_block g' p')]
-    | _, _ => VErr 0
+    | Some g', Some p' => Some (OBlock (b inT) g' p')
+    | _, _ => None
     end
-  | _ => VErr 0
+  | _ => None
   end.
+Definition covered (route : Z) : bool := route =? 0.
+Definition run_op (o : op) : val :=
+  match o with
+  | OBasic auth decoded users route => verdict (negb (covered route) || basic_accept auth decoded users)
+  | OJwt auth mal alg c now keys route => verdict (negb (covered route) || jwt_accept auth mal alg c now keys)
+  | OLink he expires checksum digest now => VZ (secure_link he expires checksum digest now)
+  | OBlock inT g p => VL [vbool (global_block inT); vbool (product_block g p)]
+  end.
+Definition run_C51 (i : val) : val := match dec_C51 i with Some o => run_op o | None => VErr 0 end.
 Definition agree_C51 (i o : val) : bool := val_eqb (run_C51 i) o.
 
 (* ---- the property, from the statement: forwarded iff the credentials are valid under the documented scheme *)
@@ -94,44 +114,38 @@ Definition decisive (rules : option (list (bool * Z))) : option Z :=
   end.
 Definition is_verdict (o : val) (ok : bool) : bool := val_eqb o (verdict ok).
 
-Definition prop_C51 (i o : val) : bool :=
-  match i with
-  | VL [VZ 1; VB auth; VZ dok; VB dec; us] =>
-    match dec_users us with
-    | Some users => negb (uniq_users users) || is_verdict o (basic_valid auth (if b dok then Some dec else None) users)
-    | None => false
-    end
-  | VL [VZ 2; VB auth; VZ mal; VZ alg; cl; VZ now; ks; _] =>
-    match dec_claims cl, dec_keys ks with
-    | Some c, Some keys => is_verdict o (jwt_valid auth (b mal) alg c now keys)
-    | _, _ => false
-    end
-  | VL [VZ 3; VZ he; VB expires; VB checksum; VB digest; VZ now; _; _; _] =>
+Definition prop_op (x : op) (o : val) : bool :=
+  match x with
+  | OBasic auth decoded users route =>
+    is_verdict o (negb (covered route) || basic_valid auth decoded users)
+  | OJwt auth mal alg c now keys route =>
+    is_verdict o (negb (covered route) || jwt_valid auth mal alg c now keys)
+  | OLink he expires checksum digest now =>
     match o with
-    | VZ code => Bool.eqb (code =? 0) (link_valid (b he) expires checksum digest now) && (0 <=? code) && (code <=? 5)
+    | VZ code => Bool.eqb (code =? 0) (link_valid he expires checksum digest now) && (0 <=? code) && (code <=? 5)
     | _ => false
     end
-  | VL [VZ 4; VZ inT; VZ hg; g; VZ hp; p; _; _] =>
-    match dec_rules hg g, dec_rules hp p, o with
-    | Some g', Some p', VL [VZ conn; VZ req] =>
-      Bool.eqb (b conn) (b inT)
-      && Bool.eqb (b req) (match decisive g' with Some c => c =? 1 | None =>
-                           match decisive p' with Some c => c =? 1 | None => false end end)
-    | _, _, _ => false
+  | OBlock inT g p =>
+    match o with
+    | VL [VZ conn; VZ req] =>
+      Bool.eqb (b conn) inT
+      && Bool.eqb (b req) (match decisive g with Some c => c =? 1 | None =>
+                           match decisive p with Some c => c =? 1 | None => false end end)
+    | _ => false
     end
-  | _ => false
   end.
+Definition prop_C51 (i o : val) : bool := match dec_C51 i with Some x => prop_op x o | None => false end.
 
 (* known finding 2: a token with a time claim that is the number 0 or not a number at all (e.g. "exp":"1600000000")
    passes the time check although it is expired / malformed (jwt-go v3.2.0 MapClaims ignores such claims).
    (finding 1, the algorithm mismatch, was repaired in /repo commit dccedcf and the model follows the repaired code) *)
-Definition kf_C51 (i : val) : Z :=
-  match i with
-  | VL [VZ 2; VB auth; VZ mal; VZ alg; cl; VZ now; ks; _] =>
-    match dec_claims cl, dec_keys ks with
-    | Some c, Some keys =>
-      if jwt_accept auth (b mal) alg c now keys && negb (jwt_valid auth (b mal) alg c now keys) then 2 else 0
-    | _, _ => 0
-    end
+Definition kf_op (x : op) : Z :=
+  match x with
+  | OJwt auth mal alg c now keys route =>
+    if covered route && jwt_accept auth mal alg c now keys && negb (jwt_valid auth mal alg c now keys) then 2 else 0
   | _ => 0
   end.
+Definition kf_C51 (i : val) : Z := match dec_C51 i with Some x => kf_op x | None => 0 end.
+(* well-formed: decodable, and a Basic user table has unique names (it is a Go map) *)
+Definition wf_op (x : op) : bool := match x with OBasic _ _ users _ => uniq_users users | _ => true end.
+Definition wf_C51 (i : val) : bool := match dec_C51 i with Some x => wf_op x | None => false end.
